@@ -43,7 +43,141 @@ def make(backend, d):
         s = TreeGitStore.create(d)
     else:
         s = BareGitStore.create(d)
+    if backend.endswith("gitconfig"):
+        use_git_config(s)
     return s
+
+
+def use_git_config(store, store_type=b"calendar"):
+    """Metadata is kept in the repository's own configuration once it has a [xandikos] section."""
+    c = store.repo.get_config()
+    c.set((b"xandikos",), b"type", store_type)
+    c.write_to_path()
+    from xandikos.store.git import RepoCollectionMetadata
+
+    assert RepoCollectionMetadata.present(store.repo)
+
+
+# ---------------------------------------------------------------------------- through HTTP
+DAV, CALDAV, CARDDAV, APPLE, INFIT = "DAV:", "urn:ietf:params:xml:ns:caldav", "urn:ietf:params:xml:ns:carddav", "http://apple.com/ns/ical/", "http://inf-it.com/ns/ab/"
+CAL, OTHER, AB = "/user/calendars/calendar/", "/user/calendars/other/", "/user/contacts/addressbook/"
+HTTP_PROPS = [  # (collection, namespace, local name, value kind)
+    (CAL, DAV, "displayname", "text"), (CAL, DAV, "comment", "text"), (CAL, APPLE, "calendar-color", "color"),
+    (CAL, APPLE, "calendar-order", "order"), (AB, CARDDAV, "addressbook-description", "text"), (AB, INFIT, "addressbook-color", "color"),
+    (AB, DAV, "displayname", "text"),
+]
+
+
+def http_values(kind, tier):
+    if kind == "color":
+        return [("#FF0000", "plain"), ("#FF0000AA", "plain"), ("#12345678", "plain"), ("#abcdef", "plain")]
+    if kind == "order":
+        return [("0", "plain"), ("7", "plain"), ("12345678901234567890", "plain")]
+    vals_ = [("x", "plain"), ("50% off %(color)s %%", "plain"), ("\"q\" it's [s] a=b:c #d", "plain"), ("café ☃ <&>", "plain"),
+             ("a;b", "semicolon"), ("line1\n line2", "lf")]
+    if tier != "quick":
+        vals_ += [(v, c) for v, c in values("quick") if c != "lf" and "\t" not in v]
+    return vals_
+
+
+class Http:
+    def __init__(self, top, form):
+        import io
+        from xandikos.web import XandikosApp, XandikosBackend
+
+        self.top, self.io = top, io
+        self.start()
+        self.backend.create_principal("/user/", create_defaults=True)
+        r = self.request("MKCALENDAR", OTHER)
+        assert r["status"] == 201, r
+        if form == "gitconfig":
+            for c in (CAL, OTHER, AB):
+                use_git_config(self.backend.get_resource(c).store, b"addressbook" if c == AB else b"calendar")
+        self.start()
+
+    def start(self):
+        """A fresh server process: new backend object, no cached stores."""
+        from xandikos import web
+
+        web.open_store_from_path.cache_clear()
+        self.backend = web.XandikosBackend(self.top)
+        self.backend._mark_as_principal("/user/")
+        self.app = web.XandikosApp(self.backend, current_user_principal="/user/")
+
+    def request(self, method, path, headers=None, body=b""):
+        env = {"REQUEST_METHOD": method, "SCRIPT_NAME": "", "PATH_INFO": path, "SERVER_NAME": "localhost", "SERVER_PORT": "80",
+               "wsgi.url_scheme": "http", "wsgi.input": self.io.BytesIO(body), "CONTENT_LENGTH": str(len(body)), "wsgi.errors": sys.stderr}
+        for k, v in (headers or {}).items():
+            if k.lower() == "content-type":
+                env["CONTENT_TYPE"] = v
+            else:
+                env["HTTP_" + k.upper().replace("-", "_")] = v
+        out = {}
+        try:
+            out["body"] = b"".join(self.app.handle_wsgi_request(env, lambda st, h, e=None: out.update(status=int(st.split()[0]), headers=dict(h))))
+        except Exception as e:
+            out.update(status=500, body=f"{type(e).__name__}: {e}".encode())
+        return out
+
+    def _prop_status(self, r, ns, name):
+        """-> (status code of the propstat that carries the property, its text)"""
+        from xml.etree import ElementTree as ET
+
+        if r["status"] != 207:
+            return r["status"], None
+        for ps in ET.fromstring(r["body"]).iter("{DAV:}propstat"):
+            el = ps.find("{DAV:}prop/{%s}%s" % (ns, name))
+            if el is not None:
+                return int(ps.find("{DAV:}status").text.split()[1]), el.text
+        return None, None
+
+    def proppatch(self, coll, ns, name, value):
+        from xml.sax.saxutils import escape
+
+        inner = (f"<D:set><D:prop><X:{name}>{escape(value)}</X:{name}></D:prop></D:set>" if value is not None
+                 else f"<D:remove><D:prop><X:{name}/></D:prop></D:remove>")
+        body = f'<?xml version="1.0" encoding="utf-8"?><D:propertyupdate xmlns:D="DAV:" xmlns:X="{ns}">{inner}</D:propertyupdate>'.encode("utf-8")
+        return self._prop_status(self.request("PROPPATCH", coll, {"Content-Type": "text/xml; charset=utf-8"}, body), ns, name)[0]
+
+    def propfind(self, coll, ns, name):
+        body = f'<?xml version="1.0" encoding="utf-8"?><D:propfind xmlns:D="DAV:" xmlns:X="{ns}"><D:prop><X:{name}/></D:prop></D:propfind>'.encode()
+        st, text = self._prop_status(self.request("PROPFIND", coll, {"Content-Type": "text/xml", "Depth": "0"}, body), ns, name)
+        return text if st == 200 else None
+
+
+def run_http_case(form, coll, ns, name, value):
+    top = tempfile.mkdtemp(prefix="verif-cfg-http-")
+    try:
+        h = Http(top, form)
+        assert h.request("PUT", CAL + "m.ics", {"Content-Type": "text/calendar"}, ICS)["status"] in (201, 204)
+        member = h.request("GET", CAL + "m.ics")["body"]
+        others = {(c, n_, p): h.propfind(c, n_, p) for (c, n_, p, k) in HTTP_PROPS if (c, n_, p) != (coll, ns, name)}
+        others[(OTHER, ns, name)] = h.propfind(OTHER, ns, name)
+        what = f"PROPPATCH {coll} set {name}={value!r}"
+        st = h.proppatch(coll, ns, name, value)
+        if st != 200:
+            return None if st in (403, 409, 422, 507) else f"{what} -> status {st} for the property"   # refused is not success
+        got = h.propfind(coll, ns, name)
+        if got != value:
+            return f"{what} reported 200; PROPFIND -> {got!r}"
+        h.start()
+        got = h.propfind(coll, ns, name)
+        if got != value:
+            return f"{what} reported 200; restart; PROPFIND -> {got!r}"
+        for (c, n_, p), before in others.items():
+            if h.propfind(c, n_, p) != before:
+                return f"{what} changed {p} of {c}: {before!r} -> {h.propfind(c, n_, p)!r}"
+        if h.request("GET", CAL + "m.ics")["body"] != member:
+            return f"{what} changed a member"
+        st = h.proppatch(coll, ns, name, None)
+        if st == 200:
+            h.start()
+            after = h.propfind(coll, ns, name)
+            if after not in (None, ""):
+                return f"after a successful remove of {name} PROPFIND -> {after!r}"
+        return None
+    finally:
+        shutil.rmtree(top, ignore_errors=True)
 
 
 def reopen(backend, d):
@@ -144,8 +278,28 @@ class Explore:
                             continue
                         return {"failing": True, "tried": n, "input": {"backend": backend, "property": prop, "value": value},
                                 "expected": "the value that was set is read back (also after a restart); nothing else changes", "observed": bad}
+        # ... and through the protocol: PROPPATCH / PROPFIND / restart on a served calendar and address book
+        for form in ("file", "gitconfig"):
+            for (coll, ns, name, kind) in HTTP_PROPS:
+                for value, cls in http_values(kind, tier):
+                    if cls == "semicolon" and form == "gitconfig":
+                        continue
+                    n += 1
+                    try:
+                        bad = run_http_case(form, coll, ns, name, value)
+                    except AssertionError as e:
+                        return {"error": f"harness: set-up of the HTTP case failed: {e!r}"}
+                    if bad:
+                        w = f"c15:{cls}:{form}"
+                        if w in known:
+                            seen_known.add(w)
+                            continue
+                        return {"failing": True, "tried": n, "input": {"http": True, "form": form, "collection": coll, "namespace": ns, "property": name, "value": value},
+                                "expected": "PROPFIND returns the value a successful PROPPATCH set (also after a restart); nothing else changes", "observed": bad}
         return {"failing": False, "tried": n, "known": sorted(seen_known),
-                "bound": "3 metadata back ends (versioned .xandikos file in tree-git and bare-git, git config section) x 4 free-text properties x value grammar (quick: 25 values; thorough: + 18^2 two-atom combinations of metacharacters)"}
+                "bound": "store level: 3 metadata back ends (versioned .xandikos file in tree-git and bare-git, git config section) x 4 free-text properties x value grammar (quick: 25 values; thorough: + 18^2 two-atom combinations of metacharacters); "
+                         "HTTP level: PROPPATCH / PROPFIND / restart / remove of displayname, comment, calendar-color, calendar-order, addressbook-description, addressbook-color on a served calendar and address book, both metadata forms, "
+                         "values with metacharacters, #RRGGBB and #RRGGBBAA colours, decimal orders"}
 
     def search(self, req):
         r = self.bounded(req)
@@ -153,6 +307,10 @@ class Explore:
 
     def replay(self, req):
         i = req.get("input")
+        if i and i.get("http"):
+            logging.disable(logging.CRITICAL)
+            bad = run_http_case(i["form"], i["collection"], i["namespace"], i["property"], i["value"])
+            return {"reproduced": True, "input": i, "observed": bad} if bad else {"reproduced": False}
         if not i or "backend" not in i:
             return self.search(req)
         logging.disable(logging.CRITICAL)
